@@ -385,8 +385,10 @@ theorem runCmd_own (sv : Server) (sid : Nat) (s : Sess) (hs : sv.sess? sid = som
   | paramSelf => exact updSess_own sv sid _ _ (by intro _; exact ⟨rfl, rfl, rfl⟩)
   | paramMax n => exact updSess_own sv sid _ _ (by intro _; exact ⟨rfl, rfl, rfl⟩)
   | paramRoute keys => exact updSess_own sv sid _ _ (by intro _; exact ⟨rfl, rfl, rfl⟩)
+  | paramRouteF keys fs => exact updSess_own sv sid _ _ (by intro _; exact ⟨rfl, rfl, rfl⟩)
   | unparamMax => exact updSess_own sv sid _ _ (by intro _; split <;> exact ⟨rfl, rfl, rfl⟩)
   | unparamRoute => exact updSess_own sv sid _ _ (by intro _; split <;> exact ⟨rfl, rfl, rfl⟩)
+  | unparamRouteF => exact updSess_own sv sid _ _ (by intro _; split <;> exact ⟨rfl, rfl, rfl⟩)
   | getparams =>
     simp only [runCmd, hs]
     exact (deliver_notify ..).onlyOwn _ _
